@@ -56,8 +56,16 @@ def _run_model(module, modules, tier, seed, env=None, timeout=5400):
         if not t:
             raise C.ToolError("MCInterp printed no CONFIGS line")
         cfgs = {c["name"]: c for c in t[0]}
+    # the thorough tier prints > 100 MB of tagged lines: parse them one at a time (same unescaping as TlcResult.tagged)
+    pre = '<<"%s", "' % tag
     with open(tmp, "w") as f:
-        for rec in res.tagged(tag):
+        for ln in res.lines:
+            if not ln.startswith(pre):
+                continue
+            ln = ln.strip()
+            if not ln.endswith('">>'):
+                raise C.ToolError("truncated %s line: %s" % (tag, ln[:200]))
+            rec = json.loads(ln[len(pre):-3].replace('\\"', '"').replace("\\\\", "\\"))
             if module == "MCInterp":
                 # expand the compact run records: n name, b budget, x expected, s steps, g guards completed, e exempt, y beyond
                 rec["runs"] = [{"name": r["n"], "flags": cfgs[r["n"]]["flags"], "dialect": cfgs[r["n"]]["dialect"],
